@@ -4,7 +4,8 @@
  * contract of every operation is written here as C *spec functions* over the real `struct hash_table_state`
  * (representation invariant ht_inv, reference-map view sp_find / sp_count_value, iterator invariant it_inv and the
  * positional visited/current/pending classification) and is evaluated by assume/assert harnesses in
- * units/C02/hash_table.c on a table of HT_NS slots (BOUNDED: HT_NS = 4 quick / 8 thorough / 2 for the 2->4 resize).
+ * units/C02/hash_table.c on a table of HT_NS slots (BOUNDED: HT_NS = 4; 2 for the steps that resize 2->4; 8 in the
+ * thorough tier for the steps that do not go through s_remove_entry / s_emplace_item).
  * Each harness is one inductive step: ANY table of that size that satisfies ht_inv (not only reachable ones), any
  * key, any hash function on key identities, any destructor configuration -> the real operation -> ht_inv again and
  * the view changes exactly as a plain reference map would.  By induction this covers every operation history over
@@ -33,6 +34,125 @@
 #define HT_NIDS (HT_NS + 1)
 #define HT_NVALS 4
 #define HT_NONE SIZE_MAX
+
+/* ------------------------------------------------------------------ replay recording
+ * Every nondeterministic choice of a harness goes through ND_*(): the k-th choice is stored in the scalar r_nd<k>, so a
+ * counterexample trace names all inputs and replay/hash_table_replay.c can re-run the SAME harness natively (ASan/UBSan)
+ * with nondet_*() answering from the recorded values.  The helpers below draw their choices unconditionally so that
+ * the order of choices does not depend on the path. */
+#ifndef HT_NATIVE_REPLAY
+uint64_t r_nd0, r_nd1, r_nd2, r_nd3, r_nd4, r_nd5, r_nd6, r_nd7, r_nd8, r_nd9, r_nd10, r_nd11, r_nd12, r_nd13, r_nd14, r_nd15, r_nd16, r_nd17, r_nd18, r_nd19, r_nd20, r_nd21, r_nd22, r_nd23, r_nd24, r_nd25, r_nd26, r_nd27, r_nd28, r_nd29, r_nd30, r_nd31, r_nd32, r_nd33, r_nd34, r_nd35, r_nd36, r_nd37, r_nd38, r_nd39, r_nd40, r_nd41, r_nd42, r_nd43, r_nd44, r_nd45, r_nd46, r_nd47, r_nd48, r_nd49, r_nd50, r_nd51, r_nd52, r_nd53, r_nd54, r_nd55, r_nd56, r_nd57, r_nd58, r_nd59, r_nd60, r_nd61, r_nd62, r_nd63, r_nd64, r_nd65, r_nd66, r_nd67, r_nd68, r_nd69, r_nd70, r_nd71, r_nd72, r_nd73, r_nd74, r_nd75, r_nd76, r_nd77, r_nd78, r_nd79, r_nd80, r_nd81, r_nd82, r_nd83, r_nd84, r_nd85, r_nd86, r_nd87, r_nd88, r_nd89, r_nd90, r_nd91, r_nd92, r_nd93, r_nd94, r_nd95;
+size_t r_n;
+static uint64_t ht_rec(uint64_t v) {
+    switch (r_n) {
+        case 0: r_nd0 = v; break;
+        case 1: r_nd1 = v; break;
+        case 2: r_nd2 = v; break;
+        case 3: r_nd3 = v; break;
+        case 4: r_nd4 = v; break;
+        case 5: r_nd5 = v; break;
+        case 6: r_nd6 = v; break;
+        case 7: r_nd7 = v; break;
+        case 8: r_nd8 = v; break;
+        case 9: r_nd9 = v; break;
+        case 10: r_nd10 = v; break;
+        case 11: r_nd11 = v; break;
+        case 12: r_nd12 = v; break;
+        case 13: r_nd13 = v; break;
+        case 14: r_nd14 = v; break;
+        case 15: r_nd15 = v; break;
+        case 16: r_nd16 = v; break;
+        case 17: r_nd17 = v; break;
+        case 18: r_nd18 = v; break;
+        case 19: r_nd19 = v; break;
+        case 20: r_nd20 = v; break;
+        case 21: r_nd21 = v; break;
+        case 22: r_nd22 = v; break;
+        case 23: r_nd23 = v; break;
+        case 24: r_nd24 = v; break;
+        case 25: r_nd25 = v; break;
+        case 26: r_nd26 = v; break;
+        case 27: r_nd27 = v; break;
+        case 28: r_nd28 = v; break;
+        case 29: r_nd29 = v; break;
+        case 30: r_nd30 = v; break;
+        case 31: r_nd31 = v; break;
+        case 32: r_nd32 = v; break;
+        case 33: r_nd33 = v; break;
+        case 34: r_nd34 = v; break;
+        case 35: r_nd35 = v; break;
+        case 36: r_nd36 = v; break;
+        case 37: r_nd37 = v; break;
+        case 38: r_nd38 = v; break;
+        case 39: r_nd39 = v; break;
+        case 40: r_nd40 = v; break;
+        case 41: r_nd41 = v; break;
+        case 42: r_nd42 = v; break;
+        case 43: r_nd43 = v; break;
+        case 44: r_nd44 = v; break;
+        case 45: r_nd45 = v; break;
+        case 46: r_nd46 = v; break;
+        case 47: r_nd47 = v; break;
+        case 48: r_nd48 = v; break;
+        case 49: r_nd49 = v; break;
+        case 50: r_nd50 = v; break;
+        case 51: r_nd51 = v; break;
+        case 52: r_nd52 = v; break;
+        case 53: r_nd53 = v; break;
+        case 54: r_nd54 = v; break;
+        case 55: r_nd55 = v; break;
+        case 56: r_nd56 = v; break;
+        case 57: r_nd57 = v; break;
+        case 58: r_nd58 = v; break;
+        case 59: r_nd59 = v; break;
+        case 60: r_nd60 = v; break;
+        case 61: r_nd61 = v; break;
+        case 62: r_nd62 = v; break;
+        case 63: r_nd63 = v; break;
+        case 64: r_nd64 = v; break;
+        case 65: r_nd65 = v; break;
+        case 66: r_nd66 = v; break;
+        case 67: r_nd67 = v; break;
+        case 68: r_nd68 = v; break;
+        case 69: r_nd69 = v; break;
+        case 70: r_nd70 = v; break;
+        case 71: r_nd71 = v; break;
+        case 72: r_nd72 = v; break;
+        case 73: r_nd73 = v; break;
+        case 74: r_nd74 = v; break;
+        case 75: r_nd75 = v; break;
+        case 76: r_nd76 = v; break;
+        case 77: r_nd77 = v; break;
+        case 78: r_nd78 = v; break;
+        case 79: r_nd79 = v; break;
+        case 80: r_nd80 = v; break;
+        case 81: r_nd81 = v; break;
+        case 82: r_nd82 = v; break;
+        case 83: r_nd83 = v; break;
+        case 84: r_nd84 = v; break;
+        case 85: r_nd85 = v; break;
+        case 86: r_nd86 = v; break;
+        case 87: r_nd87 = v; break;
+        case 88: r_nd88 = v; break;
+        case 89: r_nd89 = v; break;
+        case 90: r_nd90 = v; break;
+        case 91: r_nd91 = v; break;
+        case 92: r_nd92 = v; break;
+        case 93: r_nd93 = v; break;
+        case 94: r_nd94 = v; break;
+        case 95: r_nd95 = v; break;
+        default: break;
+    }
+    r_n++;
+    return v;
+}
+#else
+uint64_t ht_rec(uint64_t v); /* native replay: returns the recorded value */
+#endif
+#define ND_BOOL() ((ht_rec((uint64_t)nondet_bool()) & 1) != 0)
+#define ND_SIZE() ((size_t)ht_rec((uint64_t)nondet_size_t()))
+#define ND_U64() (ht_rec(nondet_u64()))
+#define ND_INT() ((int)ht_rec((uint64_t)(int64_t)nondet_int()))
 
 /* ------------------------------------------------------------------ key / value / callback model */
 struct vkey {
@@ -112,25 +232,28 @@ static void *vk_calloc(struct aws_allocator *a, size_t n, size_t m) {
 struct aws_allocator vk_alloc;
 
 static const void *ht_any_key(void) {
-    if (nondet_bool()) return NULL;
-    size_t i = nondet_size_t();
+    bool is_null = ND_BOOL();
+    size_t i = ND_SIZE();
     __CPROVER_assume(i < HT_NKEYS);
-    return &vk_pool[i];
+    return is_null ? NULL : &vk_pool[i];
 }
 static void *ht_any_value(void) {
-    if (nondet_bool()) return NULL;
-    size_t i = nondet_size_t();
+    bool is_null = ND_BOOL();
+    size_t i = ND_SIZE();
     __CPROVER_assume(i < HT_NVALS);
-    return &vv_pool[i];
+    return is_null ? NULL : &vv_pool[i];
 }
 
 /* every harness starts here: arbitrary identities, arbitrary hash function, counters at zero */
 static void ht_model_init(void) {
+#ifndef HT_NATIVE_REPLAY
+    r_n = 0;
+#endif
     for (size_t i = 0; i < HT_NKEYS; i++) {
-        vk_pool[i].id = nondet_u64();
+        vk_pool[i].id = ND_U64();
         __CPROVER_assume(vk_pool[i].id < HT_NIDS);
     }
-    for (size_t i = 0; i < HT_NIDS; i++) vk_hash_of_id[i] = nondet_u64();
+    for (size_t i = 0; i < HT_NIDS; i++) vk_hash_of_id[i] = ND_U64();
     g_hash_calls = g_eq_calls = 0;
     g_dk_calls = g_dk_hits = g_dv_calls = g_dv_hits = 0;
     g_dk_watch = g_dv_watch = &vk_alloc; /* a pointer that is never a key or value: nothing watched */
@@ -268,12 +391,12 @@ static struct hash_table_state *ht_any_state(size_t ns) {
     __CPROVER_assume(s != NULL);
     s->hash_fn = vk_hash;
     s->equals_fn = vk_eq;
-    s->destroy_key_fn = nondet_bool() ? vk_destroy_key : NULL;
-    s->destroy_value_fn = nondet_bool() ? vk_destroy_value : NULL;
+    s->destroy_key_fn = ND_BOOL() ? vk_destroy_key : NULL;
+    s->destroy_value_fn = ND_BOOL() ? vk_destroy_value : NULL;
     s->alloc = &vk_alloc;
     s->size = ns;
     s->mask = ns - 1;
-    s->max_load = nondet_size_t();
+    s->max_load = ND_SIZE();
     s->entry_count = 0;
     s->max_load_factor = 0.95;
     for (size_t i = 0; i < ns; i++) {
@@ -281,7 +404,7 @@ static struct hash_table_state *ht_any_state(size_t ns) {
          * the solver than an arbitrary 64-bit code constrained afterwards; same set of states) */
         s->slots[i].element.key = ht_any_key();
         s->slots[i].element.value = ht_any_value();
-        s->slots[i].hash_code = nondet_bool() ? sp_hash(s->slots[i].element.key) : 0;
+        s->slots[i].hash_code = ND_BOOL() ? sp_hash(s->slots[i].element.key) : 0;
         if (s->slots[i].hash_code) s->entry_count++; /* entry_count == #occupied, by construction as well */
     }
     __CPROVER_assume(ht_inv(s, ns));
